@@ -635,6 +635,7 @@ type failure struct {
 func (rb *refBroker) check(ev hx.Group, obs map[int][][]byte, calls []call) []failure {
 	ex := newExp()
 	skipPackets := false
+	unobserved := -1
 	rb.lastRefused = false
 	switch ev[0] {
 	case 1:
@@ -692,6 +693,15 @@ func (rb *refBroker) check(ev hx.Group, obs map[int][][]byte, calls []call) []fa
 		rb.feed(ex, int(ev[1]), gbytes(ev, 2))
 	case 3:
 		rb.endConn(ex, int(ev[1]), false)
+	case 9:
+		// the bytes are processed, then the connection ends - without DISCONNECT unless the bytes contained one
+		id := int(ev[1])
+		rb.feed(ex, id, gbytes(ev, 2))
+		rb.endConn(ex, id, false)
+		delete(ex.conn, id) // nothing can be observed on the connection itself
+		delete(ex.close, id)
+		delete(ex.first, id)
+		unobserved = id
 	case 4:
 		s, q, f := int(ev[1]), int(ev[2]), string(gbytes(ev, 3))
 		if rb.valid(f) && q <= 2 {
@@ -747,6 +757,9 @@ func (rb *refBroker) check(ev hx.Group, obs map[int][][]byte, calls []call) []fa
 		ids[id] = true
 	}
 	for id := range ids {
+		if id == unobserved {
+			continue
+		}
 		scope = fmt.Sprintf("conn%d", id)
 		var got []string
 		closed := false
